@@ -273,7 +273,7 @@ func genC12(t *rapid.T) c12Case {
 	var allDays []vRec
 	var allDayNums []int
 	bulk := false // set once a block with hundreds of different foods was appended: later days reuse those names
-	bulkName := func(rt *rapid.T) string { return fmt.Sprintf("bulk %d", rapid.IntRange(0, 699).Draw(rt, "bulkn")) }
+	bulkName := func(rt *rapid.T) string { return fmt.Sprintf("bulk %d", rapid.IntRange(0, 1799).Draw(rt, "bulkn")) }
 	genDay := func(rt *rapid.T, day int, minEntries int) vRec {
 		ne := rapid.IntRange(minEntries, 5).Draw(rt, "nent")
 		if rapid.IntRange(0, 11).Draw(rt, "longday") == 0 {
@@ -355,7 +355,7 @@ func genC12(t *rapid.T) c12Case {
 			}
 			d := nextDay
 			nextDay++
-			ne := rapid.IntRange(150, 420).Draw(rt, "nent")
+			ne := []int{rapid.IntRange(150, 420).Draw(rt, "nent"), rapid.IntRange(600, 1400).Draw(rt, "nentbig")}[rapid.IntRange(0, 1).Draw(rt, "size")] // up to ~1000 different foods in one day
 			var lines []vLine
 			for k := 0; k < ne; k++ {
 				num := vGenQtyExact(rt, "q")
